@@ -17,6 +17,7 @@ package deputynode
 //@ func IsRewardBlock   pure
 //@   props C13
 //@   requires cfgOK()
+//@   let td = params.TermDuration; id = params.InterimDuration
 //@   ensures result == (height >= params.TermDuration + params.InterimDuration + 1 && height % params.TermDuration == params.InterimDuration + 1)
 //@   nopanic
 
